@@ -6,10 +6,10 @@ from ..pm import U
 from . import common as C
 
 TECHNIQUE = (
-    'static analysis: sibling agreement of cache-path expressions (after definition substitution), CFG dominance of the version guard, publish-after-conversion ordering in the loader, guard facts for the lazy mode, dead-store check for the path-keyed in-process cache, atomic-publish / tolerant-read pattern check for both cache locations ; read-to-update must-reach analysis (with emptiness facts) of a streaming hash helper'
+    'static analysis: sibling agreement of cache-path expressions (after definition substitution), CFG dominance of the version guard, publish-after-conversion ordering in the loader, guard facts for the lazy mode, dead-store check for the path-keyed in-process cache, atomic-publish / tolerant-read pattern check for both cache locations, exception-escape check of directory creation (check-then-create race) ; read-to-update must-reach analysis (with emptiness facts) of a streaming hash helper'
 )
 EXPLANATION = (
-    "R1: reader (_get_cached) and writer (_write_in_cache) derive the companion and home cache paths by the same expressions from a digest of the file's bytes; the digest covers ALL bytes: either hashlib.<algo>(<whole content>) in one expression or a helper in which every block obtained from <file>.read(...) reaches <hash>.update(block) on every CFG path before it is overwritten or the function ends, unless a branch has established that the block is empty. R2: every value returned from the cache reader is dominated by the internal_version == INTERNAL_VERSION test and the loader stamps that constant before publishing. R3: in the loader's building branch no store into self._data follows the cache write. R4: cache read, cache write and in-process cache accesses are all guarded by `not lazy`. R5: a value read from the path-keyed in-process cache reaches the object's state only if it is overwritten (dead) or re-validated against the content hash on every path. R6: for both cache locations either atomic publish (dump to a name that is not the final one and is unique per process, then os.replace onto the final name) or tolerant read (pickle.load inside a handler that falls back to rebuilding) holds."
+    "R1: reader (_get_cached) and writer (_write_in_cache) derive the companion and home cache paths by the same expressions from a digest of the file's bytes; the digest covers ALL bytes: either hashlib.<algo>(<whole content>) in one expression or a helper in which every block obtained from <file>.read(...) reaches <hash>.update(block) on every CFG path before it is overwritten or the function ends, unless a branch has established that the block is empty. R2: every value returned from the cache reader is dominated by the internal_version == INTERNAL_VERSION test and the loader stamps that constant before publishing. R3: in the loader's building branch no store into self._data follows the cache write. R4: cache read, cache write and in-process cache accesses are all guarded by `not lazy`. R5: a value read from the path-keyed in-process cache reaches the object's state only if it is overwritten (dead) or re-validated against the content hash on every path. R6: for both cache locations either atomic publish (dump to a name that is not the final one and is unique per process, then os.replace onto the final name) or tolerant read (pickle.load inside a handler that falls back to rebuilding) holds. R7: every directory creation reachable from the cache writer passes exist_ok=True or sits in a handler for FileExistsError/OSError (a check-then-create sequence is a race between cold-starting processes)."
 )
 NOT_DECIDED = "Actual crash points, interleavings of racing processes and directory-permission scenarios (behavioural)."
 ASSUMPTIONS = [
@@ -25,7 +25,6 @@ def _subst_text(f, expr):
 def _path_exprs(ctx, f):
     """{role: canonical text} for hash / companion / home path in function f."""
     out = {}
-    flow = C.flow_of(f)
     for n in ast.walk(f.node):
         if isinstance(n, ast.Assign) and isinstance(n.targets[0], ast.Name):
             name = n.targets[0].id
@@ -35,13 +34,77 @@ def _path_exprs(ctx, f):
                 out["hash"] = t
                 out["hash_var"] = name
                 out["hash_node"] = n.value
-            elif ".pickle" in raw and "with_name" in raw:
-                out["companion"] = t
-                out["companion_var"] = name
-            elif ".pickle" in raw and "with_suffix" in raw:
-                out["home"] = t
-                out["home_var"] = name
+            elif ".pickle" in raw and "tmp" not in raw.lower():
+                # the home cache lives under utils.CACHE_DIR, the companion next to the model file
+                role = "home" if "CACHE_DIR" in t else "companion"
+                if role in out:
+                    continue
+                out[role] = t
+                out[role + "_var"] = name
+                out[role + "_node"] = C.flow_of(f).subst(n.value)
     return out
+
+
+def _digest_survives(expr):
+    """Does the content digest survive in the file name `expr` builds?  (True/False/None, reason)
+
+    `PurePath.with_suffix(s)` replaces everything from the LAST dot of the final component (a leading dot does not
+    count). A digest that is followed by no dot and preceded by a part that can contain one - `<path>.stem` keeps all
+    but the last suffix, so `zen2.custom.yml` has the stem `zen2.custom` - is cut off together with that suffix."""
+    cut = False
+    e = expr
+    while True:
+        if isinstance(e, ast.Call) and isinstance(e.func, ast.Attribute) and e.func.attr == "with_suffix" and len(e.args) == 1:
+            cut = True
+            e = e.func.value
+        elif isinstance(e, ast.Call) and isinstance(e.func, ast.Name) and e.func.id in ("Path", "str", "PurePath") and len(e.args) == 1:
+            e = e.args[0]
+        else:
+            break
+    if isinstance(e, ast.Call) and isinstance(e.func, ast.Attribute) and e.func.attr == "with_name" and len(e.args) == 1:
+        name = e.args[0]
+    elif isinstance(e, ast.BinOp) and isinstance(e.op, ast.Div):
+        name = e.right
+    elif isinstance(e, ast.Call) and U(e.func) in ("os.path.join", "Path", "PurePath") and e.args:
+        name = e.args[-1]
+    else:
+        return None, "file name expression `%s` not understood" % U(e)[:80]
+    parts = []
+
+    def flat(x):
+        if isinstance(x, ast.BinOp) and isinstance(x.op, ast.Add):
+            flat(x.left)
+            flat(x.right)
+        elif isinstance(x, ast.JoinedStr):
+            for v in x.values:
+                parts.append(v.value if isinstance(v, ast.FormattedValue) else v)
+        else:
+            parts.append(x)
+    flat(name)
+    kinds = []
+    for i, x in enumerate(parts):
+        if isinstance(x, ast.Constant) and isinstance(x.value, str):
+            dotted = "." in (x.value[1:] if i == 0 else x.value)
+            kinds.append(("dot" if dotted else "plain", x))
+        elif "hexdigest" in U(x):
+            kinds.append(("digest", x))
+        else:
+            kinds.append(("maybe", x))
+    dig = [i for i, (k, _) in enumerate(kinds) if k == "digest"]
+    if not dig:
+        return None, "no digest part in `%s`" % U(name)[:80]
+    if not cut:
+        return True, "name built by concatenation only"
+    i = dig[-1]
+    if any(k == "dot" for k, _ in kinds[i + 1:]):
+        return True, "a literal dot follows the digest"
+    if any(k == "maybe" for k, _ in kinds[i + 1:]):
+        return None, "a part after the digest may or may not contain a dot"
+    risky = [x for k, x in kinds[:i] if k in ("maybe", "dot")]
+    if risky:
+        return False, "`.with_suffix()` cuts the name at its last dot; `%s` can contain one (the stem of `zen2.custom.yml` " \
+                      "is `zen2.custom`), and then the digest after it is replaced: the cache is keyed by the name only" % U(risky[-1])
+    return True, "no part before the digest can contain a dot"
 
 
 HASH_ALGOS = ("sha256", "sha512", "sha384", "sha224", "sha1", "md5", "blake2b", "blake2s", "sha3_256", "sha3_512")
@@ -253,6 +316,12 @@ def run(ctx):
                 ctx.check(hv in pr[role], "R1", "%s file name contains the content digest" % role, rd.where(),
                           "the %s cache name does not depend on the content digest: %s" % (role, pr[role][:160]),
                           rd.qname, "%s name depends on digest" % role)
+                if hv in pr[role]:
+                    sv, why = _digest_survives(pr[role + "_node"])
+                    ctx.judge(sv is True, sv is not None, "R1", "%s file name keeps the digest for every model file name" % role,
+                              rd.where(), "the digest does not survive in the %s cache name `%s`: %s. A model file edited after "
+                              "caching, or another file with the same first name part, is then served from the stale cache"
+                              % (role, pr[role][:120], why), rd.qname, "%s digest survives" % role)
     # ------------------------------------------------------------------ R2
     ctx.rule("R2", "every cached value returned is dominated by the format-version test; writer stamps the version")
     rets = [n for n in ast.walk(rd.node) if isinstance(n, ast.Return) and n.value is not None
@@ -473,3 +542,78 @@ def run(ctx):
                     "MachineModel", "%s cache crash tolerance" % role)
         ctx.extra.setdefault("crash_tolerance", {})[role] = {"tolerant_read": tol, "atomic_publish": ato, "detail": why}
     ctx.floor("R6", "cache locations examined", len(ctx.extra.get("crash_tolerance", {})), 2)
+    # ------------------------------------------------------------------ R7
+    ctx.rule("R7", "directory creation on the cache-write path tolerates a second process creating it first")
+    TOL = ("OSError", "FileExistsError", "Exception", "BaseException", "EnvironmentError", "IOError")
+
+    def creations(f, depth=2, seen=None):
+        seen = seen if seen is not None else set()
+        if f.qname in seen:
+            return []
+        seen.add(f.qname)
+        out = []
+        for c in ast.walk(f.node):
+            if not isinstance(c, ast.Call):
+                continue
+            nm = pm.call_name(c) or ""
+            if nm in ("os.makedirs", "os.mkdir", "makedirs") or (isinstance(c.func, ast.Attribute) and c.func.attr == "mkdir"):
+                out.append((f, c))
+            elif depth and isinstance(c.func, ast.Attribute) and c.func.attr in helpers and U(c.func.value) in ("self", "MachineModel"):
+                out.extend(creations(helpers[c.func.attr], depth - 1, seen))
+        return out
+
+    def race_tolerant(f, c):
+        for k in c.keywords:
+            if k.arg == "exist_ok":
+                if isinstance(k.value, ast.Constant):
+                    if k.value.value is True:
+                        return True, "exist_ok=True"
+                else:
+                    return None, "exist_ok=%s" % U(k.value)
+        if (pm.call_name(c) or "") in ("os.makedirs", "makedirs") and len(c.args) >= 3:
+            a = c.args[2]
+            return (True, "exist_ok positional") if isinstance(a, ast.Constant) and a.value is True else (None, U(a))
+        for n in ast.walk(f.node):
+            if isinstance(n, ast.Try) and any(C.in_subtree(c, s) for s in n.body):
+                for h in n.handlers:
+                    names = U(h.type) if h.type is not None else "BaseException"
+                    if any(t in names for t in TOL) and not any(isinstance(s, ast.Raise) for s in ast.walk(h)):
+                        return True, "inside try/except %s" % names
+            if isinstance(n, ast.With) and C.in_subtree(c, n):
+                for it in n.items:
+                    t = U(it.context_expr)
+                    if "suppress(" in t and any(x in t for x in TOL):
+                        return True, "inside %s" % t
+        return False, "FileExistsError escapes"
+
+    def caller_tolerant(f, depth=2):
+        """every call site of f sits in a handler that swallows OSError (the writer is best effort as a whole)"""
+        sites = [(g, c) for g in ctx.repo.all_funcs() for c in ast.walk(g.node)
+                 if isinstance(c, ast.Call) and isinstance(c.func, ast.Attribute) and c.func.attr == f.name]
+        if not sites:
+            return False
+        for g, c in sites:
+            ok = False
+            for n in ast.walk(g.node):
+                if isinstance(n, ast.Try) and any(C.in_subtree(c, s) for s in n.body):
+                    for h in n.handlers:
+                        names = U(h.type) if h.type is not None else "BaseException"
+                        if any(t in names for t in TOL) and not any(isinstance(s, ast.Raise) for s in ast.walk(h)):
+                            ok = True
+            if not ok and not (depth and g is not f and caller_tolerant(g, depth - 1)):
+                return False
+        return True
+
+    made = creations(wr)
+    for f, c in made:
+        ok, why = race_tolerant(f, c)
+        if ok is False and caller_tolerant(f):
+            ok, why = True, "every caller of %s swallows OSError" % f.name
+        ctx.judge(ok is True, ok is not None, "R7", "directory creation %s" % U(c)[:60], f.where(c),
+                  "the cache directory is created by `%s` with neither exist_ok=True nor a handler for FileExistsError/OSError: "
+                  "a test like `if not <dir>.is_dir()` before it does not help, because a second cold-starting process can create the "
+                  "directory between the test and the creation; the loser's run then fails with FileExistsError instead of "
+                  "producing its report" % U(c)[:80], f.qname, "race-tolerant mkdir")
+    if not made:
+        ctx.ok("R7", "the cache writer creates no directory", wr.where())
+    ctx.extra["directory_creations"] = [{"where": f.where(c), "call": U(c)[:80]} for f, c in made]
